@@ -260,6 +260,19 @@ def families(bkind, ckind, rng, extra=0, layers=3, blob=False):
         add('pack', commit([(0, 'v1'), (1, 'v1')], 1) + PUSH + commit([(0, 'v2'), (1, 'v2')], 2) + commit([(1, 'v1')], 3)
             + pack(3, g) + commit([(0, 'v1')], 4) + pack(2, g))
     if ckind == 'temp' and not blob:
+        # a pack (without garbage collection) removes the first change(s) of an object of the base: what do the
+        # snapshots below the first revision left read?  (pack time after / between / before the changes)
+        both = commit([(0, 'v1'), (1, 'v1')], 1)
+        for sec in (3, 2, 1):
+            add('pack-seam', both + PUSH + commit([(0, 'v2'), (1, 'v2')], 2) + commit([(0, 'v1'), (1, 'v1')], 3) + pack(sec, 'false')
+                + commit([(1, 'v2')], 4))
+        add('pack-seam', both + PUSH + commit([(1, 'v2')], 2) + commit([(1, 'v1')], 3) + commit([(1, 'v2')], 4) + pack(3, 'false')
+            + pack(4, 'false'))
+        add('pack-seam', both + PUSH + commit([(0, 'v2')], 2) + commit([(0, 'v1')], 3) + pack(3, 'none'))
+        if layers >= 3:
+            add('pack-seam', both + PUSH + commit([(1, 'v2')], 2) + PUSH + commit([(1, 'v1')], 3) + commit([(1, 'v2')], 4)
+                + pack(4, 'false') + POP + commit([(1, 'v1')], 5) + pack(5, 'false'))
+    if ckind == 'temp' and not blob:
         # the demo storage's own changes are packed with garbage collection unless gc=False is passed:
         # references that lead into the base / a root that lives in the base only
         for g in ('none', 'true', 'false'):
